@@ -35,6 +35,26 @@ CLAIMED = {
              "is modelled (split/int) and correspondence-checked, not proved equal to the tuple form.",
         technique="Coq proof (model = declarative filter) + differential correspondence on real databases",
         design="4 (C06)"),
+    "C07": dict(
+        text="Coq theorems (Properties/C07.v, closed under the global context), for ALL 36 styles (key=value / key \"value\" / key "
+             "value x ';' '; ' ' ; ' x trailing semicolon x comma lists or repeated keys), any number of attributes and values and "
+             "every unicode value the style admits: the inference path of the parser applied to the writer's rendering of the "
+             "attribute column returns exactly the attributes (percent-decoded, in order) and the style's canonical dialect "
+             "(C07_parse_attrs); printing with that dialect and keep_order=True gives the column back (C07_print_attrs: stable sort "
+             "by first-seen order is the identity, quoting, GTF empty values, single-part separator); feature_from_line inverts "
+             "render_line on whole lines incl. '.' coordinates, empty attribute column and extra columns (C07_parse_line) and "
+             "str(feature) is the line byte for byte (C07_print_identity). The percent-quoting table is regenerated from parser.py "
+             "on every run. Tied to parser.py/feature.py by 4k generated lines per quick run over all styles with an adversarial "
+             "alphabet: the harness's own renderer, the Gallina writer, the model parser/printer and the implementation must all "
+             "agree; the strict=False space-separated rendering is decided by the correspondence.",
+        note="Trusted: Coq kernel + vm_compute; Model/Parser.v (hand model of _split_keyvals inference path, _reconstruct, "
+             "feature_from_line, Feature.__str__) and Base/Utf8.v, Base/WordTable.v (CPython's \\w table) are tied to the code by the "
+             "correspondence; _to_quote is translator-generated. Domain (boolean wf_feature, inhabited in all 36 styles, "
+             "Examples/C07_inhabited.v): ASCII-word keys, unique; values non-empty without white space at the ends; no ; , \" tab "
+             "CR LF in quoted-GTF values; bare values free of reserved characters; a joined unquoted value must not look quoted; "
+             "first key=value attribute not a flag; canonical decimal coordinates. The strict=False statement is not a theorem.",
+        technique="Coq proof (parse o render = id and print o parse = id for all styles) + differential correspondence over all styles",
+        design="4 (C07)"),
     "C08": dict(
         text="Coq theorems (Properties/C08.v, closed under the global context): unquote(quote s) = s for every string over "
              "all code points with the percent-encoding table regenerated from parser.py on every run; encoded text is free of "
